@@ -78,6 +78,9 @@ var webhookTemplates = []string{
 	"@(upper(webhook.city))", "@WEBHOOK.Key", "@(webhook[0])", "@(webhook[\"a b\"])", "x@webhook.com", "@( webhook )",
 	"@(if(webhook.ok, \"yes\", \"no\"))", "@webhook.json", "@(webhook.items[1].id & \"-\" & webhook.suffix)",
 	"@(1 +   2) then @webhook", "bad @(1 +) then @webhook.z",
+	// context references are case-insensitive: every spelling must be rewritten
+	"@Webhook.name", "@WEBHOOK", "Hi @WebHook.user.first!", "@(WEBHOOK[\"a b\"])", "@(upper(WebHook.city))", "@(Webhook.items[0].id + webHOOK.count)",
+	"@(if(WEBHOOK.ok, Webhook.name, \"no\"))", "@wEBHOOK.json.x",
 }
 var plainTemplates = []string{
 	"Hello", "Hi @contact.name", "@(1 + 2)", "@@webhook stays", "@(foo.webhook)", "@(\"webhook\")", "@webhooks", "@fields.webhook",
